@@ -7,13 +7,18 @@ from harness.props import c05
 
 ID = 'C17'
 MODULE = 'Gpv.Props.C17'
-THEOREMS = core.theorems('C17')
+MODULES = ['Gpv.Props.C17', 'Gpv.Props.C17Float']
+THEOREMS = core.theorems('C17', 'C17Float')
 RULE = ('RunningMean / RunningVariance / RunningCovariance with lifetimes 1-50 (integers and non-integers >= 1), sequences below, at '
         'and above the lifetime, scalars and arrays, lifetime changed mid-stream; read after every push; model in exact rationals vs '
         'float implementation (rtol 1e-9); oracle: explicit weights (1/n in warm-up, then 1/L, decaying by 1-1/L, first L sharing one '
         'weight), value between min and max, constant reproduced, Running* = plain Variance/Covariance while n <= lifetime. '
         'non-trivial: n > lifetime >= 2 with non-constant data; distinct by (kind, lifetime, data).')
-PARTIAL = ['floating-point rounding of the running update is tested against the exact model with a tolerance, not proved']
+PARTIAL = ['floating-point behaviour of the RUNNING MEAN: proved in the standard rounding model with the step weights taken as given numbers in [0,1] '
+           '(C17Float.rmean_float_bounded: |acc| <= M*amin/(amin-4u) for ever, i.e. independent of n; rmean_float_error(_const/_model): the distance to the '
+           'exact recursion stays below 4*u*l*M/(1-4*u*l), the initial error is forgotten geometrically; rmean_float_warmup: 3*(n+1)*u*M during warm-up; '
+           'rmean_float_stationary: a bound independent of the weight is false). The rounding of the weights themselves (1/lifetime, 1/n) and the running '
+           'variance / covariance are not covered: tested against the exact model with a tolerance']
 ASSUMPTIONS = ['numpy element-wise arithmetic']
 
 
